@@ -2529,14 +2529,18 @@ impl VmGreenThread {
 
     // TODO: this is not very incremental.
     fn start_mark_phase(&mut self) {
+        self.mark_roots();
+
+        self.gc_state = GcState::Marking;
+    }
+
+    fn mark_roots(&mut self) {
         // mark roots gray
         for v in self.value_stack.iter() {
             Self::mark(v, &mut self.gray_stack, self.gc_visited);
         }
         Self::mark(&self.string_operand1, &mut self.gray_stack, self.gc_visited);
         Self::mark(&self.string_operand2, &mut self.gray_stack, self.gc_visited);
-
-        self.gc_state = GcState::Marking;
     }
 
     fn mark(v: &Value, gray_stack: &mut Vec<*mut ObjectHeader>, gc_visited: bool) {
@@ -2606,7 +2610,13 @@ impl VmGreenThread {
             }
         }
         if self.gray_stack.is_empty() {
-            self.gc_state = GcState::Sweeping { index: 0 };
+            // The roots are not covered by the write barrier: an unmarked object may have been
+            // moved from the heap onto the stack since the roots were last scanned. Rescan them,
+            // and only sweep once that finds nothing left to mark.
+            self.mark_roots();
+            if self.gray_stack.is_empty() {
+                self.gc_state = GcState::Sweeping { index: 0 };
+            }
         }
     }
 
